@@ -203,11 +203,28 @@ def gen_case(rng, i, tier):
     B = 1 if mode == "single" else rng.choice([2, 3])
     nrow_h = B if mode == "both" else 1
     tree, h = sim_tree(rng, tips, logu(rng, 0.3, 8), digits)
+    burst = None
+    if kind in ("skyride", "skygrid") and rng.random() < 0.2:
+        # a deep tree in which one coalescence follows the previous event almost at once (a resolved polytomy): one
+        # statistic is ten or more orders of magnitude below the running total of the others
+        f = rng.choice([50.0, 200.0, 1000.0])
+        tips = [t * f for t in tips]
+        h = [x * f for x in h]
+        ev = sorted(set(tips + h))
+        cand = [j for j, x in enumerate(h) if x > ev[0]]
+        if cand:
+            j = rng.choice(cand)
+            prev = max(e for e in tips + h if e < h[j])
+            gap = rng.choice([1e-8, 1e-7, 1e-6])
+            if prev + gap < h[j]:
+                h[j] = prev + gap
+                burst = dict(node=j, gap=gap, scaled_by=f)
     coals = [h]
     for _ in range(nrow_h - 1):
         c = rng.uniform(1.0, 3.0)
         coals.append([x * c for x in h])
-    case.update(n=n, scheme=scheme, mode=mode, B=B, tips=tips, coals=coals, newick=newick(tree) + ";", digits=digits)
+    case.update(n=n, scheme=scheme, mode=mode, B=B, tips=tips, coals=coals, newick=newick(tree) + ";", digits=digits,
+                burst=burst)
     if kind == "const_int":
         case["alpha"] = rng.choice([0.001, 0.5, 1.0, 3.0, round(logu(rng, 0.01, 20), 3)])
         case["beta"] = rng.choice([0.001, 0.5, 1.0, 3.0, round(logu(rng, 0.01, 20), 3)])
